@@ -672,7 +672,8 @@ fn pair_matches(md: &Model, n: usize, cur: usize, b: &Board, mv: Move) -> bool {
     ok
 }
 
-/// CONC leading `next()` calls are concrete (the walker state after them is concrete), then NOPS symbolic operations
+/// CONC encodes a concrete operation sequence in base-5 digits, least significant first (1 next, 2 prev, 3 start, 4 end;
+/// 0 terminates): the walker state after it is a stated concrete state; then NOPS symbolic operations
 pub fn walker_steps<S: Src, const START: u8, const PRE: u8, const KG: u8, const CONC: usize, const NOPS: usize>(s: &mut S) {
     let (mut ch, mut md) = build(START, PRE);
     if KG != 0 {
@@ -690,8 +691,19 @@ pub fn walker_steps<S: Src, const START: u8, const PRE: u8, const KG: u8, const 
         let mut cur = 0usize;
         vassert!("walker starts at the beginning and knows the length", w.pos() == 0 && w.len() == n && w.is_empty() == (n == 0));
         let mut k = 0;
-        while k < CONC + NOPS {
-            let op = if k < CONC { 0 } else { s.below(4) };
+        let mut conc = CONC;
+        let mut sym_left = NOPS;
+        while k < 8 + NOPS {
+            let op = if conc % 5 != 0 {
+                let d = (conc % 5) as u8 - 1;
+                conc /= 5;
+                d
+            } else if sym_left > 0 {
+                sym_left -= 1;
+                s.below(4)
+            } else {
+                break;
+            };
             match op {
                 0 => match w.next() {
                     Some((b, mv)) => {
